@@ -606,3 +606,125 @@ def r_inf_hyper(A, ctx, scope, rule="R-INFPARAM"):
                      "the solver uses its whole budget) although MCP with gamma = inf is the L1 penalty") if bad else "",
                loc=loc(f, bad) if bad else None)
     ctx.floor(rule, n, scope.get("floor", 6))
+
+
+def r_wscut(A, ctx, scope, rule="R-WSCUT"):
+    """C20 / C13: the working set and the size used for buffers derived from it stay in step"""
+    ctx.rule(rule, "working set and working-set size in step: wherever the size variable the working set was "
+             "cut with (`argpartition(opt, -k)[-k:]`) is read again (Anderson buffers, reshapes, the `== "
+             "n_features` exit), the working set that reaches that point is the `[-k:]` cut by the same "
+             "definition of k - or k was recomputed as the length of the working set after it; a working set "
+             "filtered or extended afterwards leaves buffers sized for another length")
+    n = 0
+    for name, sf in sorted(A.facts.items()):
+        f = sf.f
+        cut = None
+        for st in ast.walk(f.node):
+            if isinstance(st, ast.Assign) and len(st.targets) == 1 and isinstance(st.targets[0], ast.Name):
+                for c in ast.walk(st.value):
+                    if isinstance(c, ast.Call) and ast.unparse(c.func).endswith("argpartition") and len(c.args) >= 2 \
+                            and isinstance(c.args[1], ast.UnaryOp) and isinstance(c.args[1].operand, ast.Name):
+                        cut = (st.targets[0].id, c.args[1].operand.id)
+        if cut is None:
+            continue
+        ws, k = cut
+        cfg = cfg_of(f)
+        rd = cfg.reaching_defs()
+
+        def defs_at(nid, var):
+            return frozenset(d for d in rd.get(nid, {}).get(var, ()) if d >= 0)
+
+        def is_cut(a):
+            """ws = <...>[-k:]"""
+            if not (isinstance(a, ast.Assign) and isinstance(a.value, ast.Subscript)):
+                return False
+            sl = a.value.slice
+            return isinstance(sl, ast.Slice) and sl.upper is None and isinstance(sl.lower, ast.UnaryOp) \
+                and isinstance(sl.lower.op, ast.USub) and isinstance(sl.lower.operand, ast.Name) \
+                and sl.lower.operand.id == k
+
+        def is_len_of_ws(a):
+            return isinstance(a, ast.Assign) and ast.unparse(a.value) in (f"len({ws})", f"{ws}.shape[0]", f"{ws}.size")
+        for nd in cfg.stmts():
+            root = nd.ast.iter if nd.kind == "for" else (nd.ast.test if nd.kind in ("if", "while") else nd.ast)
+            if root is None:
+                continue
+            # only reads that size something: allocation shapes and reshapes
+            shaped = [c for c in ast.walk(root) if isinstance(c, ast.Call) and (
+                ast.unparse(c.func) in ("np.zeros", "np.empty", "np.ones", "np.full")
+                or (isinstance(c.func, ast.Attribute) and c.func.attr in ("reshape", "resize")))]
+            if not any(isinstance(x, ast.Name) and x.id == k and isinstance(x.ctx, ast.Load)
+                       for c in shaped for x in ast.walk(c)):
+                continue
+            wdefs = defs_at(nd.id, ws)
+            kdefs = defs_at(nd.id, k)
+            if not wdefs:
+                continue            # the size is read before any working set exists (its own cut)
+            bad = None
+            for d in sorted(wdefs):
+                a = cfg.nodes[d].ast
+                if d == nd.id:
+                    continue
+                if is_cut(a) and defs_at(d, k) == kdefs:
+                    continue
+                if all(is_len_of_ws(cfg.nodes[kd].ast) and defs_at(kd, ws) == frozenset([d]) for kd in kdefs) and kdefs:
+                    continue
+                bad = a
+            n += 1
+            ctx.ob(rule, f"{f.fq}::{norm_src(root)[:60]}", bad is None,
+                   what=(f"`{norm_src(root)[:70]}` reads `{k}`, but the working set reaching it was defined by "
+                         f"`{norm_src(bad)[:70]}`, which is not the `[-{k}:]` cut (nor is `{k}` recomputed from "
+                         f"its length): buffers and reshapes sized with `{k}` no longer match `{ws}`") if bad is not None else "",
+                   loc=loc(f, root))
+    ctx.floor(rule, n, scope.get("floor", 3))
+
+
+def r_grppair(A, ctx, scope, rule="R-GRPPAIR"):
+    """C11: the group structure the user gave is the one the penalty and the datafit receive"""
+    ctx.rule(rule, "group structure plumbing: the pair (grp_indices, grp_ptr) returned by grp_converter reaches "
+             "the penalty and datafit constructors as returned - neither name is rebound in between, and every "
+             "`grp_ptr=` / `grp_indices=` constructor argument is one of the two names; the user's per-group "
+             "`weights` are positionally tied to the groups of that pair (dropping or merging groups on one "
+             "side pairs weights[g] with another group)")
+    n = 0
+    for f in A.prog.all_functions():
+        if not f.module.name.startswith("skglm.") or ".tests" in f.module.name:
+            continue
+        for st in ast.walk(f.node):
+            if not (isinstance(st, ast.Assign) and isinstance(st.value, ast.Call)
+                    and ast.unparse(st.value.func).endswith("grp_converter")
+                    and isinstance(st.targets[0], ast.Tuple) and len(st.targets[0].elts) == 2
+                    and all(isinstance(e, ast.Name) for e in st.targets[0].elts)):
+                continue
+            gi, gp = (e.id for e in st.targets[0].elts)
+            n += 1
+            bad = None
+            for x in ast.walk(f.node):
+                if x is st:
+                    continue
+                tg = []
+                if isinstance(x, ast.Assign):
+                    for t in x.targets:
+                        tg += [e for e in ast.walk(t) if isinstance(e, ast.Name) and isinstance(e.ctx, ast.Store)]
+                        tg += [t.value for t in [t] if isinstance(t, ast.Subscript) and isinstance(t.value, ast.Name)]
+                elif isinstance(x, ast.AugAssign):
+                    t = x.target
+                    tg += [t] if isinstance(t, ast.Name) else ([t.value] if isinstance(t, ast.Subscript) and isinstance(t.value, ast.Name) else [])
+                if any(e.id in (gi, gp) for e in tg):
+                    bad = x
+            ctx.ob(rule, f"{f.fq}::rebinding", bad is None,
+                   what=(f"{f.qualname}: `{norm_src(bad)[:70]}` changes one side of the (grp_indices, grp_ptr) "
+                         "pair after grp_converter returned it: per-group weights and the other array still "
+                         "describe the original groups, so a group is penalised with another group's weight") if bad is not None else "",
+                   loc=loc(f, bad) if bad is not None else None)
+            for c in ast.walk(f.node):
+                if isinstance(c, ast.Call):
+                    for kw in c.keywords:
+                        if kw.arg in ("grp_ptr", "grp_indices"):
+                            want = gp if kw.arg == "grp_ptr" else gi
+                            n += 1
+                            ctx.ob(rule, f"{f.fq}::{ast.unparse(c.func)}({kw.arg}=)", isinstance(kw.value, ast.Name) and kw.value.id == want,
+                                   what=f"{f.qualname}: `{ast.unparse(c.func)}({kw.arg}={norm_src(kw.value)[:30]})` does not "
+                                        f"receive `{want}`, the array grp_converter returned for that role",
+                                   loc=loc(f, c))
+    ctx.floor(rule, n, scope.get("floor", 5))
